@@ -7,12 +7,14 @@ package main
 import (
 	"encoding/json"
 	"flag"
+	"fmt"
 	"math/rand"
 	neturl "net/url"
 	"os"
 	"reflect"
 	"sort"
 	"strings"
+	"sync"
 
 	"github.com/mfcochauxlaberge/jsonapi"
 )
@@ -98,6 +100,9 @@ type uStyle struct {
 	Label    string `json:"label"`    // concrete filter label
 	PageVal  string `json:"pageval"`  // concrete page size text
 	FilterJS string `json:"filterjs"` // concrete filter JSON
+	// Busy: while the chain is followed, other goroutines print URLs of their own (own schema value,
+	// own labels): printing a URL concerns nobody else
+	Busy bool `json:"busy"`
 }
 
 type uCase struct {
@@ -536,6 +541,31 @@ func runChain(c uCase, raw string, schema *jsonapi.Schema, req uReq) uEvent {
 	ev.Special = special(c.Style.ID) || (req.Filter == "label" && special(c.Style.Label)) ||
 		(req.Filter == "json") || (req.Page != "none" && special(c.Style.PageVal))
 	p, _ := catch(func() {
+		if c.Style.Busy {
+			stop := make(chan struct{})
+			var wg sync.WaitGroup
+			for g := 0; g < 4; g++ {
+				own := buildURLSchema("soft")
+				ou, err := jsonapi.NewURLFromRaw(own, fmt.Sprintf("/ta/%d?filter=busy%%20label%%20%d%%20%s&fields[ta]=y,x", g, g, strings.Repeat("z", 3+g)))
+				if err != nil {
+					continue
+				}
+				wg.Add(1)
+				go func() {
+					defer wg.Done()
+					defer func() { _ = recover() }()
+					for {
+						select {
+						case <-stop:
+							return
+						default:
+							_ = ou.String()
+						}
+					}
+				}()
+			}
+			defer func() { close(stop); wg.Wait() }()
+		}
 		u1, err := jsonapi.NewURLFromRaw(schema, raw)
 		if err != nil {
 			ev.Ret = "skip" // not an accepted URL: nothing to say
@@ -559,6 +589,11 @@ func runChain(c uCase, raw string, schema *jsonapi.Schema, req uReq) uEvent {
 		// ... and the text is the same when asked for again, the fragments being what they were
 		ev.R.Frags = reflect.DeepEqual(u1b.Fragments, u2.Fragments) && u1.String() == s1 &&
 			reflect.DeepEqual(u1.Fragments, u1b.Fragments)
+		if c.Style.Busy {
+			for i := 0; i < 300 && ev.R.Frags; i++ {
+				ev.R.Frags = u1.String() == s1 // (the same text, however often it is asked for meanwhile)
+			}
+		}
 		ev.R.ResType = u1b.ResType == u2.ResType
 		ev.R.ResID = u1b.ResID == u2.ResID
 		ev.R.Rel = u1b.Rel == u2.Rel && u1b.RelKind == u2.RelKind
@@ -638,7 +673,14 @@ func urlMain(args []string) {
 		b, err := os.ReadFile(*replay)
 		must(err)
 		must(json.Unmarshal(b, &rf))
-		os.Stdout.Write(jsonLine(runURLCase(rf.Case)))
+		ev := runURLCase(rf.Case)
+		if rf.Case.Style.Busy {
+			// with goroutines of its own a case goes wrong with some probability per run: a replay insists
+			for i := 0; i < 300 && ev.Ret == "ok" && ev.R.Frags && ev.R.S2Eq && ev.R.Filter && ev.R.S1Parses; i++ {
+				ev = runURLCase(rf.Case)
+			}
+		}
+		os.Stdout.Write(jsonLine(ev))
 		return
 	}
 	var vocab struct {
@@ -695,6 +737,9 @@ func urlMain(args []string) {
 	both := func(req uReq, st uStyle) {
 		ev := emit(uCase{Fam: "url", Mode: "url", Req: req, Style: st})
 		if ev.Out.Ret == "ok" {
+			if st.Busy = req.Filter == "label" && rng.Intn(3) == 0; st.Busy {
+				stt.class("chain:while-others-print")
+			}
 			emit(uCase{Fam: "url", Mode: "chain", Req: req, Style: st})
 		}
 	}
